@@ -157,6 +157,14 @@ func (p *kitGRPCPlugin) GRPCServer(b *plugin.GRPCBroker, s *grpc.Server) error {
 	return nil
 }
 
+// kitGRPCPluginOnly: a second gRPC plugin name on the plugin side that registers no service of its own
+type kitGRPCPluginOnly struct{ plugin.NetRPCUnsupportedPlugin }
+
+func (p *kitGRPCPluginOnly) GRPCServer(b *plugin.GRPCBroker, s *grpc.Server) error { return nil }
+func (p *kitGRPCPluginOnly) GRPCClient(ctx context.Context, b *plugin.GRPCBroker, c *grpc.ClientConn) (interface{}, error) {
+	return nil, errors.New("plugin-only has no client")
+}
+
 func (p *kitGRPCPlugin) GRPCClient(ctx context.Context, b *plugin.GRPCBroker, c *grpc.ClientConn) (interface{}, error) {
 	if p.onGRPCBroker != nil {
 		p.onGRPCBroker(b)
